@@ -11,14 +11,29 @@ MANIFEST = dict(
 )
 
 
-def history(chk, rows):
+def calls_opcode(v, opcode):
+    """the generator's own record: does the body contain a call of this opcode (any spelling)"""
+    if isinstance(v, dict):
+        if v.get("k") == "call" and isinstance(v.get("name"), dict) and v["name"].get("ins") == opcode:
+            return True
+        return any(calls_opcode(x, opcode) for x in v.values())
+    if isinstance(v, list):
+        return any(calls_opcode(x, opcode) for x in v)
+    return False
+
+
+def history(chk, rows, byid):
     hist = []
     index = []      # (first_line, row)
     for o in rows:
         start = len(hist) + 1
         index.append((start, o))
         num = lambda ids: [int(x[1:]) for x in ids]
-        has_anti = any(e.get("ev") == "anti_scratch" for e in o["events"])
+        prog = byid[o["id"]]
+        # (from the generator, not from the `anti_scratch` event: the event is what is being checked)
+        has_anti = prog["cfg"].get("anti") is not None and calls_opcode(prog["body"], prog["cfg"]["anti"])
+        if has_anti:
+            chk.add("scripts_with_scratch_forbidding_instruction")
         hist.append({"ev": "reset", "general_i": o["scratch_int"], "general_f": o["scratch_float"],
                      "mentioned": num(o["mentioned"]), "params": [], "anti": has_anti})
         for e in o["events"]:
@@ -133,7 +148,7 @@ def run(chk, replay=None):
             chk.add("unsupported")
             continue
         rows.append(o)
-    hist, index = history(chk, rows)
+    hist, index = history(chk, rows, byid)
 
     def describe(row, ev, why):
         kind = ev.get("ev")
